@@ -18,9 +18,9 @@ func newQueue(capacity uint) queue {
 	}
 
 	return queue{
-		entries:   make([]any, capacity),
-		head:      -1,
-		tail:      -1,
+		entries: make([]any, capacity),
+		head:    -1,
+		tail:    -1,
 		// buffered: a signal sent while the consumer is between finding the queue empty and
 		// waiting on the channel must not be lost, or the entry stays unhandled until the next push.
 		readyChan: make(chan struct{}, 1),
